@@ -138,6 +138,28 @@ def run_case(case):
         elif ((pm < ps[:, 0] - 1e-12) | (pm > ps[:, -1] + 1e-12)).any():
             bad("predict outside [min, max]", ncond, desc)
         ncond = ncond_saved
+        # history: hyper-parameters changed after the fit (no refit) leave the fitted models, hence all three outputs, as they are;
+        # a refit then uses the new values
+        if g < 6:
+            for key, val in (("n_estimators", m + 1), ("n_estimators", 1 if m > 1 else 4), ("alpha", alpha / 2 + 0.25)):
+                hcond = "%s,after fit; set_params(%s=other)" % (ncond, key)
+                try:
+                    old = model.get_params(deep=False)[key]
+                    model.set_params(**{key: val})
+                    pa2 = numpy.asarray(model.predict_all(Pq))
+                    pm2 = numpy.asarray(model.predict(Pq))
+                    ps2 = numpy.asarray(model.predict_sorted(Pq))
+                    model.set_params(**{key: old})
+                except Exception as e:
+                    bad("predict raises %s" % type(e).__name__, hcond, "%s %s" % (str(e)[:200], desc))
+                    break
+                cnt += 1
+                if not numpy.array_equal(pa2, exp_all):
+                    bad("predict_all != individual predictions", hcond, desc)
+                if pm2.shape != (len(P),) or numpy.abs(pm2 - exp_all.mean(axis=1)).max() > 1e-12:
+                    bad("predict != mean of individual predictions", hcond, "%r vs %r %s" % (pm2.tolist(), exp_all.mean(axis=1).tolist(), desc))
+                if not numpy.array_equal(ps2, numpy.sort(exp_all, axis=1)):
+                    bad("predict_sorted != row-wise sorted predictions", hcond, desc)
     size = int(x + 0.5)
     if not viol or all("raises" not in v["sig"] for v in viol):
         if size >= 1 and seen_rows != set(range(n)):
